@@ -1,5 +1,6 @@
 //! Positive controls: one violating instance per zero-count rule.  Never executed; only extracted by mjfacts so
 //! that every run proves the rules can still see what they forbid.
 #![allow(dead_code, unused)]
+pub mod c02;
 pub mod c16;
 pub mod c17;
